@@ -575,6 +575,8 @@ class O5mEncoder {
                         uvar(o, i + 1);
                         ch.note("o5m-string-reference");
                         if (i + 1 > 127) ch.note("o5m-reference>127");
+                        if (i + 1 >= 14990) ch.note("o5m-reference>=14990");
+                        if (i + 1 == 15000) ch.note("o5m-reference==15000");
                         return;
                     }
                     break;
